@@ -70,6 +70,9 @@ def transient_case(rng, settle=None):
     return case
 
 
+N_STEADY = {'quick': 320, 'thorough': 3200}
+
+
 def generate(tier, seed, shard, nshards):
     rng = random.Random(f'C12/{seed}/{shard}')
     for _ in range(N_CASE[tier] // nshards):
@@ -79,6 +82,95 @@ def generate(tier, seed, shard, nshards):
             if rng.random() < 0.3:
                 from .C10 import swept
                 yield {**c, 'circuit': swept(rng, c['circuit']), 'sweep_of_previous': True}
+    for _ in range(N_STEADY[tier] // nshards):
+        cd = dyn_circuit(rng, max_nodes=4)
+        if cd is None:
+            continue
+        srcs = [c['id'] for c in cd['components'] if c['ctor'].endswith('source')]
+        yield {'kind': 'steady', 'circuit': cd,
+               'drive': {sid: {'A': rng.choice([1.0, -2.0, 0.5, 3.0]), 'phi': rng.choice([0.0, rng.uniform(-3.1, 3.1)]), 'wsel': rng.random()} for sid in srcs}}
+
+
+def judge_steady(case, ctx, prefix):
+    """sinusoidal inputs (each source its own frequency): after the natural response has died out the simulated waveforms equal
+    the multi-frequency steady state  sum_s Re(X_s(j w_s) A_s e^{j phi_s} e^{j w_s t})  of the exact phasor references"""
+    from CircuitCalculator.Circuit.solution import TransientSolution
+    from .C10 import build_models
+    from ..oracles import netsolve
+    cd = case['circuit']
+    ok, _ = dynamics.non_degenerate(cd)
+    if not ok:
+        ctx.count('set_aside_degenerate')
+        return
+    built = call(build_models, cd)
+    if raised(built):
+        ctx.violation(f'{prefix}/model-construction-raised/{built.key}', built.text, {})
+        return
+    circ = built[0]
+    ev = np.linalg.eigvals(built[2].A)
+    if not ev.size or not np.all(np.isfinite(ev)) or np.max(ev.real) >= 0:
+        ctx.count('steady_set_aside_not_strictly_stable')
+        return
+    lam_max, lam_slow = float(np.max(np.abs(ev))), float(np.min(-ev.real))
+    if lam_max / lam_slow > 60 or dynamics.construction_kappa(cd) > 1e6:
+        ctx.count('steady_set_aside_stiff_or_ill_conditioned')
+        return
+    drive = {sid: {**d, 'w': lam_slow * (lam_max / lam_slow) ** d['wsel']} for sid, d in case['drive'].items()}
+    w_hi, w_lo = max(d['w'] for d in drive.values()), min(d['w'] for d in drive.values())
+    h = min(0.5 / lam_max, 0.02 / w_hi)
+    t_settle, t_obs = 34.0 / lam_slow, 2 * 2 * np.pi / w_lo
+    n = int(np.ceil((t_settle + t_obs) / h))
+    if n > 120000:
+        ctx.count('steady_set_aside_too_many_steps')
+        return
+    tin = np.arange(n + 1) * h
+    fns = {sid: (lambda d: (lambda t: d['A'] * np.cos(d['w'] * np.asarray(t, dtype=float) + d['phi'])))(d) for sid, d in drive.items()}
+    sol = call(TransientSolution, circuit=circ, tin=tin, input=fns)
+    if raised(sol):
+        ctx.violation(f'{prefix}/steady/simulation-raised/{sol.key}', sol.text, {})
+        return
+    comps = [c for c in cd['components'] if c['ctor'] != 'ground']
+    nodes = circdesc.nodes({'components': comps})
+    win = tin >= t_settle
+    tw = tin[win]
+    exp_phi = {nd: np.zeros(tw.size) for nd in nodes}
+    exp_i = {c['id']: np.zeros(tw.size) for c in comps}
+    s_phi = s_i = 0.0
+    for sid, d in drive.items():
+        refd = netsolve.reference_from_ref(dynamics.unit_response_network(cd, d['w'], sid))
+        if refd is None or refd['kappa'] > 1e6:
+            ctx.count('steady_set_aside_stiff_or_ill_conditioned')
+            return
+        ph = d['A'] * np.exp(1j * d['phi']) * np.exp(1j * d['w'] * tw)
+        for nd in nodes:
+            exp_phi[nd] += (refd['rep']['phi'][nd] * ph).real
+        for c in comps:
+            exp_i[c['id']] += (refd['rep']['I'][c['id']] * ph).real
+        s_phi += abs(d['A']) * refd['s_phi']
+        s_i += abs(d['A']) * refd['s_i']
+    tol = 5 * (w_hi * h) ** 2 / 8 + 1e-6                 # the inputs are interpolated linearly between the samples
+    ctx.count('steady_states_compared')
+    ctx.evaluated(circdesc.signature(cd, ('steady', len(drive))), True)
+    for nd in nodes:
+        r = call(sol.get_potential, nd)
+        if raised(r):
+            ctx.violation(f'{prefix}/steady/query-raised/{r.key}', r.text, {})
+            return
+        e = float(np.max(np.abs(np.asarray(r[1], dtype=float).reshape(-1)[win] - exp_phi[nd])))
+        ctx.maxstat('max_steady_state_error_over_scale', e / max(s_phi, 1e-300))
+        if e > tol * s_phi:
+            ctx.violation(f'{prefix}/steady/potential', f'potential({nd!r}) deviates from the multi-frequency steady state by {e!r} (scale {s_phi!r}) after {t_settle * lam_slow:.0f} slowest time constants', {'drive': drive})
+            return
+    for c in comps:
+        r = call(sol.get_current, c['id'])
+        if raised(r):
+            ctx.violation(f'{prefix}/steady/query-raised/{r.key}', r.text, {})
+            return
+        e = float(np.max(np.abs(np.asarray(r[1], dtype=float).reshape(-1)[win] - exp_i[c['id']])))
+        if e > tol * s_i:
+            ctx.violation(f'{prefix}/steady/current/{c["ctor"]}', f'current({c["id"]!r}) deviates from the multi-frequency steady state by {e!r} (scale {s_i!r})', {'drive': drive})
+            return
+    ctx.sample({'circuit': cd, 'drive': drive, 'n': n})
 
 
 def grid_for(cd, case):
@@ -170,6 +262,8 @@ def run_transient(case, ctx, prefix, want=('phi', 'V', 'I'), half=False):
 
 
 def judge(case, ctx, prefix='C12'):
+    if case.get('kind') == 'steady':
+        return judge_steady(case, ctx, prefix)
     cd = case['circuit']
     ok, _ = dynamics.non_degenerate(cd)
     if not ok:
@@ -321,7 +415,7 @@ def guards(m, tier):
     r = []
     q = tier == 'quick'
     for k, need in (('simulations', 400), ('simulations_hostile-order', 100), ('grid_refinement_checked', 400), ('element_dynamics_checked', 500),
-                    ('companion_reference_compared', 80), ('settling_checked', 15), ('simulations_integer_time_grid', 30), ('simulations_input_nonzero_at_first_sample', 60)):
+                    ('companion_reference_compared', 80), ('settling_checked', 15), ('simulations_integer_time_grid', 30), ('simulations_input_nonzero_at_first_sample', 60), ('steady_states_compared', 40)):
         need = need if q else need * 12
         if c.get(k, 0) < need:
             r.append(f'{k} = {c.get(k, 0)} (<{need})')
